@@ -1,6 +1,7 @@
 import FeatherModel.Base.Driver
 import FeatherModel.Model.CodeWrite
 import FeatherModel.Model.PoolWrite
+import FeatherModel.Model.BootstrapWrite
 import FeatherModel.Spec.CodeDenote
 import FeatherModel.Spec.ClassParse
 
@@ -9,6 +10,13 @@ open Driver Sexp CodeWrite
 /-! Driver for C02. Request grammar: see `harness/src/bin/c02.rs`. -/
 
 namespace C02
+
+open BootstrapWrite (Handle Bsm)
+
+/-- a loadable constant that is not itself dynamic (argument of a bootstrap method, operand of `ldc`) -/
+inductive RConst where
+  | int (v : Int) | long (v : Int) | float (bits : Nat) | double (bits : Nat)
+  | str (s : JStr) | cls (s : JStr) | mtype (d : JStr) | mhandle (h : Handle)
 
 /-- request-level instruction: model instruction or an `ldc` still carrying its constant -/
 inductive RInsn where
@@ -25,6 +33,10 @@ inductive RInsn where
   /-- `new`, `anewarray`, `checkcast`, `instanceof` -/
   | clsOp (op : Nat) (cls : JStr)
   | multianewarray (cls : JStr) (dims : Nat)
+  | ldcConst (c : RConst)
+  /-- `invokedynamic` / `ldc` of a dynamic constant: name, descriptor, bootstrap handle, static arguments -/
+  | indy (name desc : JStr) (h : Handle) (args : List RConst)
+  | ldcDyn (name desc : JStr) (h : Handle) (args : List RConst)
 
 def condOf : Nat → Option Cond
   | 0 => some .eq | 1 => some .ne | 2 => some .lt | 3 => some .ge | 4 => some .gt | 5 => some .le
@@ -48,6 +60,30 @@ def kindOf (s : Sexp) : Option Nat := do
 def parsePair (s : Sexp) : Option (Int × Nat) :=
   match s with
   | list [k, t] => do pure ((← sInt 32 k), (← toNat? t))
+  | _ => none
+
+/-- `(h kind #cls #name #desc iface)`: kinds 1–4 need a Fieldref, 5 and 8 a Methodref, 6 and 7 a Methodref or
+InterfaceMethodref, 9 an InterfaceMethodref -/
+def parseHandle : Sexp → Option Handle
+  | list [atom "h", k, c, n, d, i] => do
+    let k ← toNat? k
+    let i ← toBool? i
+    let rk ← if 1 ≤ k ∧ k ≤ 4 then (if i then none else some 9)
+      else if k = 5 ∨ k = 8 then (if i then none else some 10)
+      else if k = 6 ∨ k = 7 then some (if i then 11 else 10)
+      else if k = 9 then (if i then some 11 else none) else none
+    pure ⟨k, rk, ← toJStr? c, ← toJStr? n, ← toJStr? d⟩
+  | _ => none
+
+def parseConst : Sexp → Option RConst
+  | list [atom "ldc-int", v] => do pure (.int (← sInt 32 v))
+  | list [atom "ldc-long", v] => do pure (.long (← sInt 64 v))
+  | list [atom "ldc-float", v] => do pure (.float (← uNat 32 v))
+  | list [atom "ldc-double", v] => do pure (.double (← uNat 64 v))
+  | list [atom "ldc-str", s] => do pure (.str (← toJStr? s))
+  | list [atom "ldc-cls", s] => do pure (.cls (← toJStr? s))
+  | list [atom "ldc-mt", s] => do pure (.mtype (← toJStr? s))
+  | list [atom "ldc-mh", h] => do pure (.mhandle (← parseHandle h))
   | _ => none
 
 def parseInsn1 : Sexp → Option RInsn
@@ -88,6 +124,12 @@ def parseInsn1 : Sexp → Option RInsn
     let t ← toNat? t
     if 4 ≤ t ∧ t ≤ 11 then pure (.plain (.newarray t)) else none
   | list [atom "mana", c, d] => do pure (.multianewarray (← toJStr? c) (← uNat 8 d))
+  | list [atom "ldc-mt", s] => do pure (.ldcConst (.mtype (← toJStr? s)))
+  | list [atom "ldc-mh", h] => do pure (.ldcConst (.mhandle (← parseHandle h)))
+  | list [atom "indy", n, d, h, as] => do
+    pure (.indy (← toJStr? n) (← toJStr? d) (← parseHandle h) (← toListOf? parseConst as))
+  | list [atom "ldc-dyn", n, d, h, as] => do
+    pure (.ldcDyn (← toJStr? n) (← toJStr? d) (← parseHandle h) (← toListOf? parseConst as))
   | _ => none
 
 def parseInsns (xs : List Sexp) : Option (Array RInsn) :=
@@ -137,22 +179,58 @@ def parseReq (i e l v : Sexp) : Option Req := do
   let xs ← toList? i
   pure ⟨← parseInsns xs, ← toListOf? parseExc e, ← toOption? (toListOf? parseLine) l, ← toOption? (toListOf? parseLv) v⟩
 
-/-- resolve the `ldc`s through the pool, in instruction order (what the first attempt of `write_code` does) -/
-def poolInsns (p : PoolWrite.Pool) (xs : Array RInsn) : Option (List Insn × PoolWrite.Pool) := do
-  let (acc, p) ← xs.foldlM (init := ((#[] : Array Insn), p)) fun (acc, p) x =>
+/-- `put_loadable` for the non-dynamic loadables -/
+def putConst (p : PoolWrite.Pool) : RConst → Option (Nat × PoolWrite.Pool)
+  | .int v => PoolWrite.put p (.int v)
+  | .long v => PoolWrite.put p (.long v)
+  | .float b => PoolWrite.put p (.float b)
+  | .double b => PoolWrite.put p (.double b)
+  | .str s => PoolWrite.putString p s
+  | .cls s => PoolWrite.putClass p s
+  | .mtype d => do let (i, p) ← PoolWrite.putUtf8 p d; PoolWrite.put p (.methodType i)
+  | .mhandle h => BootstrapWrite.putHandle p h
+
+def putConsts (p : PoolWrite.Pool) : List RConst → Option (List Nat × PoolWrite.Pool)
+  | [] => some ([], p)
+  | c :: cs => do
+    let (i, p) ← putConst p c
+    let (is, p) ← putConsts p cs
+    pure (i :: is, p)
+
+/-- `from_invoke_dynamic` / `from_dynamic`: name-and-type first, then the arguments, then the bootstrap method -/
+def putDyn (p : PoolWrite.Pool) (bs : List Bsm) (name desc : JStr) (h : Handle) (args : List RConst) :
+    Option (Nat × Nat × PoolWrite.Pool × List Bsm) := do
+  let (nt, p) ← PoolWrite.putNameAndType p name desc
+  let (as, p) ← putConsts p args
+  let (b, bs) ← BootstrapWrite.put bs ⟨h, as⟩
+  pure (b, nt, p, bs)
+
+/-- resolve the constants through the pool, in instruction order (what the first attempt of `write_code` does) -/
+def poolInsns (p : PoolWrite.Pool) (xs : Array RInsn) : Option (List Insn × PoolWrite.Pool × List Bsm) := do
+  let (acc, p, bs) ← xs.foldlM (init := ((#[] : Array Insn), p, ([] : List Bsm))) fun (acc, p, bs) x =>
     match x with
-    | .plain i => some (acc.push i, p)
-    | .ldcInt v => do let (i, p) ← PoolWrite.put p (.int v); pure (acc.push (.ldc i false), p)
-    | .ldcLong v => do let (i, p) ← PoolWrite.put p (.long v); pure (acc.push (.ldc i true), p)
-    | .ldcStr s => do let (i, p) ← PoolWrite.putString p s; pure (acc.push (.ldc i false), p)
-    | .ldcCls s => do let (i, p) ← PoolWrite.putClass p s; pure (acc.push (.ldc i false), p)
-    | .ldcFloat b => do let (i, p) ← PoolWrite.put p (.float b); pure (acc.push (.ldc i false), p)
-    | .ldcDouble b => do let (i, p) ← PoolWrite.put p (.double b); pure (acc.push (.ldc i true), p)
-    | .ref op kind c n d => do let (i, p) ← PoolWrite.putRef p kind c n d; pure (acc.push (.cp op i), p)
-    | .invokeinterface c n d => do let (i, p) ← PoolWrite.putRef p 11 c n d; pure (acc.push (.invokeinterface i d), p)
-    | .clsOp op c => do let (i, p) ← PoolWrite.putClass p c; pure (acc.push (.cp op i), p)
-    | .multianewarray c d => do let (i, p) ← PoolWrite.putClass p c; pure (acc.push (.multianewarray i d), p)
-  pure (acc.toList, p)
+    | .plain i => some (acc.push i, p, bs)
+    | .ldcInt v => do let (i, p) ← PoolWrite.put p (.int v); pure (acc.push (.ldc i false), p, bs)
+    | .ldcLong v => do let (i, p) ← PoolWrite.put p (.long v); pure (acc.push (.ldc i true), p, bs)
+    | .ldcStr s => do let (i, p) ← PoolWrite.putString p s; pure (acc.push (.ldc i false), p, bs)
+    | .ldcCls s => do let (i, p) ← PoolWrite.putClass p s; pure (acc.push (.ldc i false), p, bs)
+    | .ldcFloat b => do let (i, p) ← PoolWrite.put p (.float b); pure (acc.push (.ldc i false), p, bs)
+    | .ldcDouble b => do let (i, p) ← PoolWrite.put p (.double b); pure (acc.push (.ldc i true), p, bs)
+    | .ref op kind c n d => do let (i, p) ← PoolWrite.putRef p kind c n d; pure (acc.push (.cp op i), p, bs)
+    | .invokeinterface c n d => do let (i, p) ← PoolWrite.putRef p 11 c n d; pure (acc.push (.invokeinterface i d), p, bs)
+    | .clsOp op c => do let (i, p) ← PoolWrite.putClass p c; pure (acc.push (.cp op i), p, bs)
+    | .multianewarray c d => do let (i, p) ← PoolWrite.putClass p c; pure (acc.push (.multianewarray i d), p, bs)
+    | .ldcConst c => do let (i, p) ← putConst p c; pure (acc.push (.ldc i false), p, bs)
+    | .indy n d h as => do
+      let (b, nt, p, bs) ← putDyn p bs n d h as
+      let (i, p) ← PoolWrite.put p (.invokeDynamic b nt)
+      pure (acc.push (.invokedynamic i), p, bs)
+    | .ldcDyn n d h as => do
+      let (b, nt, p, bs) ← putDyn p bs n d h as
+      let (i, p) ← PoolWrite.put p (.dynamic b nt)
+      -- `is_long_or_double`: the descriptor starts with `D` or `J`
+      pure (acc.push (.ldc i (match d with | 68 :: _ => true | 74 :: _ => true | _ => false)), p, bs)
+  pure (acc.toList, p, bs)
 
 /-- instructions with `ldc`s replaced by fixed indices (for the ops that do not care about the pool) -/
 def plainInsns (xs : Array RInsn) : List Insn :=
@@ -164,6 +242,8 @@ def plainInsns (xs : Array RInsn) : List Insn :=
     | .invokeinterface _ _ d => Insn.invokeinterface 9 d
     | .clsOp op _ => Insn.cp op 9
     | .multianewarray _ d => Insn.multianewarray 9 d
+    | .indy _ _ _ _ => Insn.invokedynamic 9
+    | .ldcDyn _ d _ _ => Insn.ldc 300 (match d with | 68 :: _ => true | 74 :: _ => true | _ => false)
     | _ => Insn.ldc 7 false).toList
 
 def u32b := CodeWrite.u32b
@@ -212,6 +292,8 @@ structure Out where
   lvt : Option (List (List Nat))
   lvtt : Option (List (List Nat))
   pool : PoolWrite.Pool
+  /-- rows of the `BootstrapMethods` attribute: handle index, argument indices -/
+  bsms : List (Nat × List Nat)
 
 abbrev Tab := Option (ClassWrite.Attr × List (List Nat))
 
@@ -224,7 +306,7 @@ def classFile (r : Req) : R Out :=
   opt (PoolWrite.putClass p (jstr "java/lang/Object")) fun (superI, p) =>
   opt (PoolWrite.putUtf8 p (jstr "m")) fun (nameI, p) =>
   opt (PoolWrite.putUtf8 p (jstr "()V")) fun (descI, p) =>
-  opt (poolInsns p r.insns) fun (is, p) =>
+  opt (poolInsns p r.insns) fun (is, p, bs) =>
   match writeCode is with
   | .outOfFuel => .err
   | .err => .err
@@ -277,12 +359,26 @@ def classFile (r : Req) : R Out :=
     let sub (t : Tab) : List ClassWrite.Attr := match t with | none => [] | some (a, _) => [a]
     let codeAttr : ClassWrite.CodeAttr := ⟨7, 9, res.code, excR, sub lntT ++ sub lvtT ++ sub lvttT⟩
     opt (attr p "Code" (ClassWrite.codeBody codeAttr)) fun (codeA, p) =>
+    -- `BootstrapMethods`, after all members: the handles enter the pool now
+    let bsm : R (List ClassWrite.Attr × List (Nat × List Nat) × PoolWrite.Pool) :=
+      if bs.isEmpty then .ok ([], [], p) else
+      if bs.length > 65535 then .err else
+      match BootstrapWrite.rows p bs with
+      | none => .err
+      | some (rows, p) =>
+        match attr p "BootstrapMethods" (BootstrapWrite.body rows) with
+        | none => .err
+        | some (a, p) => .ok ([a], rows, p)
+    match bsm with
+    | .err => .err
+    | .panic => .panic
+    | .ok (classAttrs, bsmRows, p) =>
     let img : ClassWrite.ClassImg :=
-      ⟨0, 52, p.count, PoolWrite.inner p, 0x21, thisI, superI, [], [], [⟨0x9, nameI, descI, [codeA]⟩], []⟩
+      ⟨0, 52, p.count, PoolWrite.inner p, 0x21, thisI, superI, [], [], [⟨0x9, nameI, descI, [codeA]⟩], classAttrs⟩
     .ok {
       file := ClassWrite.classBytes img, img := img
       res := res, insns := is, excRows := excR
-      lnt := lntT.map (·.2), lvt := lvtT.map (·.2), lvtt := lvttT.map (·.2), pool := p }
+      lnt := lntT.map (·.2), lvt := lvtT.map (·.2), lvtt := lvttT.map (·.2), pool := p, bsms := bsmRows }
 
 /-! ## answers -/
 
@@ -325,6 +421,37 @@ def refAt (p : PoolWrite.Pool) (kind : Nat) (c n d : JStr) (i : Nat) : Bool :=
   | some (.ifaceMethodRef a b) => kind == 11 && clsAt p c a && natAt p n d b
   | _ => false
 
+def handleAt (p : PoolWrite.Pool) (h : Handle) (i : Nat) : Bool :=
+  match p.get i with
+  | some (.methodHandle k r) => k == h.kind && refAt p h.refKind h.cls h.name h.desc r
+  | _ => false
+
+def rconstAt (p : PoolWrite.Pool) : RConst → Nat → Bool
+  | .int v, i => p.get i == some (.int v)
+  | .long v, i => p.get i == some (.long v)
+  | .float b, i => p.get i == some (.float b)
+  | .double b, i => p.get i == some (.double b)
+  | .str s, i => (match p.get i with | some (.str u) => p.get u == some (.utf8 s) | _ => false)
+  | .cls s, i => clsAt p s i
+  | .mtype d, i => (match p.get i with | some (.methodType u) => p.get u == some (.utf8 d) | _ => false)
+  | .mhandle h, i => handleAt p h i
+
+def allRconstAt (p : PoolWrite.Pool) : List RConst → List Nat → Bool
+  | [], [] => true
+  | c :: cs, i :: is => rconstAt p c i && allRconstAt p cs is
+  | _, _ => false
+
+/-- the dynamic entry at `i` (tag `indy` = InvokeDynamic, else Dynamic) points at a row of the BootstrapMethods table
+holding the requested handle and arguments, and at the requested name and descriptor -/
+def dynAt (p : PoolWrite.Pool) (rows : List (Nat × List Nat)) (indy : Bool) (n d : JStr) (h : Handle) (as : List RConst)
+    (i : Nat) : Bool :=
+  let chk (b nt : Nat) : Bool :=
+    natAt p n d nt && (match rows[b]? with | some (hi, ais) => handleAt p h hi && allRconstAt p as ais | none => false)
+  match p.get i with
+  | some (.invokeDynamic b nt) => indy && chk b nt
+  | some (.dynamic b nt) => !indy && chk b nt
+  | _ => false
+
 /-- the constant the request asks for sits at the index the `ldc` uses -/
 def constAt (p : PoolWrite.Pool) : RInsn → Insn → Bool
   | .plain _, _ => true
@@ -338,11 +465,21 @@ def constAt (p : PoolWrite.Pool) : RInsn → Insn → Bool
   | .invokeinterface c n d, .invokeinterface i _ => refAt p 11 c n d i
   | .clsOp _ c, .cp _ i => clsAt p c i
   | .multianewarray c _, .multianewarray i _ => clsAt p c i
+  | .ldcConst c, .ldc i false => rconstAt p c i
+  | .indy _ _ _ _, .invokedynamic _ => true
+  | .ldcDyn _ _ _ _, .ldc _ _ => true
   | _, _ => false
 
 def allConstAt (p : PoolWrite.Pool) : List RInsn → List Insn → Bool
   | [], [] => true
   | x :: xs, i :: is => constAt p x i && allConstAt p xs is
+  | _, _ => false
+
+def allDynAt (p : PoolWrite.Pool) (rows : List (Nat × List Nat)) : List RInsn → List Insn → Bool
+  | [], [] => true
+  | .indy n d h as :: xs, .invokedynamic i :: is => dynAt p rows true n d h as i && allDynAt p rows xs is
+  | .ldcDyn n d h as :: xs, .ldc i _ :: is => dynAt p rows false n d h as i && allDynAt p rows xs is
+  | _ :: xs, _ :: is => allDynAt p rows xs is
   | _, _ => false
 
 /-- `ldc` is used exactly for indices up to 255 (decoded length 2), `ldc_w` above -/
@@ -362,6 +499,7 @@ def oracleWriteRead (r : Req) : Ans :=
     | some ds =>
       if !matchAll o.res.label (fun k => o.res.pos[k]?) 0 o.insns ds then .ok (list [tag "fail", tag "differs"])
       else if !allConstAt o.pool r.insns.toList o.insns then .ok (list [tag "fail", tag "constant"])
+      else if !allDynAt o.pool o.bsms r.insns.toList o.insns then .ok (list [tag "fail", tag "bootstrap"])
       else if !ldcForms ds then .ok (list [tag "fail", tag "ldc-form"])
       else .ok (tag "pass")
   | _ => .ok (tag "out-of-domain")
@@ -409,6 +547,19 @@ def cpKindOk (p : PoolWrite.Pool) (op i : Nat) : Bool :=
   | some (.cls _) => op == 187 || op == 189 || op == 192 || op == 193
   | _ => false
 
+/-- what `ldc` / `ldc_w` may load (JVMS §6.5: a loadable constant that is not long or double) -/
+def loadable1 (p : PoolWrite.Pool) (i : Nat) : Bool :=
+  match p.get i with
+  | some (.int _) => true | some (.float _) => true | some (.str _) => true | some (.cls _) => true
+  | some (.methodType _) => true | some (.methodHandle _ _) => true | some (.dynamic _ _) => true
+  | _ => false
+
+/-- what `ldc2_w` may load -/
+def loadable2 (p : PoolWrite.Pool) (i : Nat) : Bool :=
+  match p.get i with
+  | some (.long _) => true | some (.double _) => true | some (.dynamic _ _) => true
+  | _ => false
+
 def slotsSum (p : PoolWrite.Pool) : Nat := (p.entries.map (fun e => PoolWrite.slots e.1)).foldl (· + ·) 0
 
 /-- structural validity, evaluated on the model's components -/
@@ -442,7 +593,17 @@ def oracleWellformed (r : Req) : Ans :=
         | .fieldRef a b => isClass p a && isNat p b
         | .methodRef a b => isClass p a && isNat p b
         | .ifaceMethodRef a b => isClass p a && isNat p b
+        | .methodType a => isUtf8 p a
+        | .methodHandle k r => (match p.get r with
+          | some (.fieldRef _ _) => 1 ≤ k && k ≤ 4
+          | some (.methodRef _ _) => 5 ≤ k && k ≤ 8
+          | some (.ifaceMethodRef _ _) => k == 6 || k == 7 || k == 9
+          | _ => false)
+        | .dynamic b nt => decide (b < o.bsms.length) && isNat p nt
+        | .invokeDynamic b nt => decide (b < o.bsms.length) && isNat p nt
         | _ => true) then fail "pool-reference" else
+    if !(o.bsms.all fun row => (match p.get row.1 with | some (.methodHandle _ _) => true | _ => false) &&
+        row.2.all fun a => loadable1 p a || loadable2 p a) then fail "bootstrap-row" else
     match decode o.res.code with
     | none => fail "undecodable"
     | some ds =>
@@ -452,8 +613,9 @@ def oracleWellformed (r : Req) : Ans :=
       if !(ds.all fun d => (dTargets d.2.2).all insnAt) then fail "branch-target" else
       if !ldcForms ds then fail "ldc-form" else
       if !(ds.all fun d => match d.2.2 with
-          | .ldc i => (match p.get i with | some (.int _) => true | some (.float _) => true | some (.str _) => true | some (.cls _) => true | _ => false)
-          | .ldc2 i => (match p.get i with | some (.long _) => true | some (.double _) => true | _ => false)
+          | .ldc i => loadable1 p i
+          | .ldc2 i => loadable2 p i
+          | .invokedynamic i => (match p.get i with | some (.invokeDynamic _ _) => true | _ => false)
           | .lookupswitch _ ps => strictKeys (ps.map fun kp => (kp.1, 0))
           | .cp op i => cpKindOk p op i
           | .invokeinterface i c => (match p.get i with | some (.ifaceMethodRef _ _) => true | _ => false) && decide (1 ≤ c)
@@ -483,7 +645,7 @@ def poolPut (xs : Array RInsn) : Option (List Nat × Nat) := do
   let (_, p) ← PoolWrite.putClass p (jstr "java/lang/Object")
   let (_, p) ← PoolWrite.putUtf8 p (jstr "m")
   let (_, p) ← PoolWrite.putUtf8 p (jstr "()V")
-  let (is, p) ← poolInsns p xs
+  let (is, p, _) ← poolInsns p xs
   let (_, p) ← PoolWrite.putUtf8 p (jstr "Code")
   pure (is.filterMap (fun i => match i with | .ldc idx _ => some idx | _ => none), p.count)
 
